@@ -4,6 +4,9 @@ package desync
 // Engine self-tests (not tied to a property).
 
 import (
+	"bytes"
+	"context"
+	"path"
 	"io"
 	"net/http"
 	"os"
@@ -55,5 +58,26 @@ func VerifSelf_HTTP() {
 	}
 	vAssert(err == nil && c != nil, "http get works")
 	vAssert(rt.calls == 1, "one call")
+	vCover("x")
+}
+
+func VerifSelf_Path() {
+	vNote("join=" + path.Join(".", "//a") + " fjoin=" + filepath.Join("/r/dest", path.Join(".", "//a")))
+	a := newVerifArchive()
+	a.entry(os.ModeDir | 0755)
+	a.filename("//a")
+	a.entry(0644)
+	a.payload([]byte("x"))
+	a.goodbye()
+	parent, dest, _ := verifSandbox()
+	fs := NewLocalFS(dest, LocalFSOptions{})
+	err := UnTar(context.Background(), bytes.NewReader(a.buf.Bytes()), fs)
+	if err != nil {
+		vNote("err=" + err.Error())
+	}
+	for _, f := range vFSList("/") {
+		vNote("file " + f)
+	}
+	_ = parent
 	vCover("x")
 }
